@@ -1021,7 +1021,7 @@ func c20Ask(rec *EventRecorder) (Events, bool) {
 }
 
 func c20WaitCount(rec *EventRecorder, n int) (c20Lists, bool) {
-	deadline := time.Now().Add(20 * time.Second)
+	deadline := time.Now().Add(5 * time.Second)
 	for time.Now().Before(deadline) {
 		ev, ok := c20Ask(rec)
 		if !ok {
@@ -1046,8 +1046,9 @@ func c20WaitCount(rec *EventRecorder, n int) (c20Lists, bool) {
 // c20Conformance pushes one fixed history through the real event loop
 // (newEventRecorder, the public channels, the 5 s save timer, a second
 // newEventRecorder on the same file) and requires the same result as the
-// direct drive used by the search.  A difference means the harness does not
-// drive the code the way the daemon does: harness error, not a verdict.
+// direct drive used by the search.  The direct drive is itself compared with the
+// list model by the search, so a difference here is the event loop losing or
+// misplacing events: a violation located in eventLoop.
 func c20Conformance(c *vfeng.Ctx, w *c20World, retention time.Duration) {
 	hist := []c20Op{{Op: "rec", Kind: "auth", User: "u1"}, {Op: "rec", Kind: "ssh", User: "u1"}, {Op: "rec", Kind: "x509", User: "u2"},
 		{Op: "rec", Kind: "webLogin", User: "u1"}, {Op: "rec", Kind: "spLogin", User: "u2"}}
@@ -1086,13 +1087,15 @@ func c20Conformance(c *vfeng.Ctx, w *c20World, retention time.Duration) {
 		n++
 		l, ok := c20WaitCount(rec, n) // one at a time: the loop's select has no order between channels
 		if !ok {
-			c.Res.HarnessErr = "conformance: event loop did not record " + op.String()
+			// the event went into the real loop through its public channel and the history the
+			// loop serves does not grow: that is the daemon losing an event, not a harness matter
+			c.Violate("C20|loss|eventLoop|"+op.Kind+"-not-in-served-history", fmt.Sprintf("after %s was delivered on the recorder's public channel the history it serves still holds %d events (fixed history %s)", op.String(), n-1, c20HistText2(hist)), map[string]interface{}{"part": "event-loop", "history": c20HistText2(hist)})
 			return
 		}
 		loopBefore = l
 	}
 	if !c20Equal(loopBefore, directBefore) {
-		c.Res.HarnessErr = fmt.Sprintf("conformance: event loop holds %s, direct drive holds %s", c20Text(loopBefore, now), c20Text(directBefore, now))
+		c.Violate("C20|loss|eventLoop|served-history-differs", fmt.Sprintf("the event loop serves %s; the same history applied to the recorder's functions gives %s", c20Text(loopBefore, now), c20Text(directBefore, now)), map[string]interface{}{"part": "event-loop", "history": c20HistText2(hist)})
 		return
 	}
 	vclock.Advance(5 * time.Second) // save timer
@@ -1114,12 +1117,12 @@ func c20Conformance(c *vfeng.Ctx, w *c20World, retention time.Duration) {
 	}
 	loopAfter, ok := c20WaitCount(rec2, n)
 	if !ok {
-		c.Res.HarnessErr = "conformance: restarted recorder does not answer with the saved number of events"
+		c.Violate("C20|loss|eventLoop|restart-loses-events", fmt.Sprintf("%d events went through the event loop and its save timer fired; a recorder restarted on the same file does not serve %d events (fixed history %s)", n, n, c20HistText2(hist)), map[string]interface{}{"part": "event-loop", "history": c20HistText2(hist)})
 		return
 	}
 	// the direct drive ticks nothing between save and load; the loop saved 5 s later: ages differ by 0 s in CreateTime terms (CreateTime is absolute)
 	if !c20Equal(loopAfter, directAfter) {
-		c.Res.HarnessErr = fmt.Sprintf("conformance: after restart the event-loop recorder holds %s, direct drive holds %s", c20Text(loopAfter, now), c20Text(directAfter, now))
+		c.Violate("C20|loss|eventLoop|restart-differs", fmt.Sprintf("after restart the event-loop recorder holds %s, expected %s", c20Text(loopAfter, now), c20Text(directAfter, now)), map[string]interface{}{"part": "event-loop", "history": c20HistText2(hist)})
 		return
 	}
 	c.Count("conformance_runs_through_event_loop", 1)
@@ -1138,6 +1141,19 @@ func c20HistText2(h []c20Op) string {
 // ---------------------------------------------------------------- replay
 
 func c20ReplayFn(c *vfeng.Ctx, raw json.RawMessage) (bool, string) {
+	var part struct {
+		Part string `json:"part"`
+	}
+	if json.Unmarshal(raw, &part) == nil && part.Part == "event-loop" {
+		w := c20NewWorld("replay-loop")
+		defer w.Close()
+		n := len(c.Res.Violations)
+		c20Conformance(c, w, durationMonth)
+		if len(c.Res.Violations) > n {
+			return true, c.Res.Violations[n].Key + " :: " + c.Res.Violations[n].What
+		}
+		return false, "the event loop serves and reloads the fixed history intact"
+	}
 	var r c20Replay
 	if err := json.Unmarshal(raw, &r); err != nil {
 		return false, "bad replay data: " + err.Error()
